@@ -5,7 +5,7 @@
 
 using namespace vp;
 
-enum { OP_ADD, OP_SUB, OP_MUL, OP_DIV, OP_ADD_A, OP_SUB_A, OP_MUL_A, OP_DIV_A, OP_PREINC, OP_POSTINC, OP_PREDEC, OP_POSTDEC, OP_NEG, OP_SQRT, OP_SC_SQRT, OP_MUL_ADD_SEQ, OP_MUL_SUB_SEQ, OP_MULA_ADDA_SEQ, OP_USAGE, OP_COUNT };
+enum { OP_ADD, OP_SUB, OP_MUL, OP_DIV, OP_ADD_A, OP_SUB_A, OP_MUL_A, OP_DIV_A, OP_PREINC, OP_POSTINC, OP_PREDEC, OP_POSTDEC, OP_NEG, OP_SQRT, OP_SC_SQRT, OP_MUL_ADD_SEQ, OP_MUL_SUB_SEQ, OP_MULA_ADDA_SEQ, OP_USAGE, OP_LITERAL, OP_COUNT };
 static const VpOp OPS[] = {
     {"add", {VK_FLT, VK_FLT_REL}, {SK_SMALL}, 2}, {"sub", {VK_FLT, VK_FLT_REL}, {SK_SMALL}, 2}, {"mul", {VK_FLT, VK_FLT_REL}, {SK_SMALL}, 2}, {"div", {VK_FLT, VK_FLT_REL}, {SK_SMALL}, 2},
     {"add_assign", {VK_FLT, VK_FLT_REL}, {SK_SMALL}, 1}, {"sub_assign", {VK_FLT, VK_FLT_REL}, {SK_SMALL}, 1}, {"mul_assign", {VK_FLT, VK_FLT_REL}, {SK_SMALL}, 1}, {"div_assign", {VK_FLT, VK_FLT_REL}, {SK_SMALL}, 1},
@@ -13,8 +13,10 @@ static const VpOp OPS[] = {
     {"unary_minus", {VK_FLT}, {SK_SMALL}, 1}, {"sqrt", {VK_FLT}, {SK_SMALL}, 2}, {"scalar_sqrt", {VK_FLT}, {SK_SMALL}, 1},
     // two operators in one expression: each rounds on its own (a product feeding a sum is two IEEE operations, never one fused multiply-add)
     {"mul_then_add", {VK_FLT, VK_FLT_REL, VK_FLT_REL}, {SK_SMALL}, 2}, {"mul_then_sub", {VK_FLT, VK_FLT_REL, VK_FLT_REL}, {SK_SMALL}, 1}, {"mul_assign_then_add_assign", {VK_FLT, VK_FLT_REL, VK_FLT_REL}, {SK_SMALL}, 1},
-    // usage forms (s0 / 4 selects): x += x, x -= x, x *= x, x /= x, and the returned reference used as an lvalue: (x *= b) += c, (x += b) /= c
+    // usage forms (s0 / 4 selects): x += x, x -= x, x *= x, x /= x, and the returned reference used as an lvalue: (x *= b) += c, (x += b) /= c, ++(++x), (--x) += b
     {"aliased_and_chained_forms", {VK_FLT, VK_FLT_REL, VK_FLT_REL}, {SK_SMALL}, 1},
+    // one operand is a literal the optimiser can see (x / V{3}, x * V{0.1}, V{10} / x, x /= V{7} ...): s1 selects literal and form
+    {"literal_operand", {VK_FLT}, {SK_SMALL, SK_OFF}, 2},
 };
 enum { CL_INEXACT, CL_ZERO, CL_SUBNORMAL, CL_INF, CL_NAN, CL_OVERFLOW, CL_UNDERFLOW, CL_NON_NEAREST_MODE, CL_ORDINARY, CL_FUSED_DIFFERS };
 static const char* const CLASSES[] = {"inexact_result", "zero_operand_or_result", "subnormal_operand_or_result", "infinite_operand", "nan_operand", "overflow_to_infinity",
@@ -38,11 +40,32 @@ template<class V> __attribute__((noinline)) static void do_seq(unsigned op, cons
     default: break;
     }
 }
+#define VP_LITERALS(X) X(0, 3) X(1, 5) X(2, 6) X(3, 7) X(4, 9) X(5, 10) X(6, 100) X(7, 0.1) X(8, 1e10) X(9, 0.3) X(10, 1.5) X(11, 1e-3) X(12, 255) X(13, 2) X(14, 0.5) X(15, 1)
+enum { N_LITERALS = 16 };
+template<class T> static uint64_t literal_bits(unsigned i) {
+    switch (i) {
+#define X(k, L) case k: { volatile T v = T(L); return elem<T>::to_bits(v); }
+        VP_LITERALS(X)
+#undef X
+    default: return 0;
+    }
+}
+template<class V> __attribute__((noinline)) static void do_literal(unsigned sel, const V* a, V* r) {
+    typedef typename V::scalar T;
+    switch (sel) {
+#define X(k, L) case 6 * k + 0: *r = *a / V{T(L)}; break; case 6 * k + 1: *r = *a * V{T(L)}; break; case 6 * k + 2: *r = V{T(L)} / *a; break; \
+                case 6 * k + 3: { V t = *a; t /= V{T(L)}; *r = t; break; } case 6 * k + 4: *r = *a + V{T(L)}; break; case 6 * k + 5: *r = V{T(L)} - *a; break;
+        VP_LITERALS(X)
+#undef X
+    default: *r = *a; break;
+    }
+}
 template<class V> __attribute__((noinline)) static void do_usage(unsigned form, const V* a, const V* b, const V* c, V* r) {
     V x = *a;
     switch (form) {
     case 0: x += x; break; case 1: x -= x; break; case 2: x *= x; break; case 3: x /= x; break;
-    case 4: (x *= *b) += *c; break; default: (x += *b) /= *c; break;
+    case 4: (x *= *b) += *c; break; case 5: (x += *b) /= *c; break;
+    case 6: ++(++x); break; default: (--x) += *b; break;
     }
     *r = x;
 }
@@ -71,17 +94,29 @@ template<class V> static void run_seq(const VpCase* c, VpOutcome* o, int mode, c
         RoundGuard g(mode);
         before = FpEnv::take();
         poison_below(al[0] ^ op);
-        const unsigned form = (unsigned)(((c->s[0] < 0 ? -c->s[0] : c->s[0]) / 4) % 6);
-        if (op == OP_USAGE) do_usage<V>(form, &a, &b, &cc, &r); else do_seq<V>(op, &a, &b, &cc, &r);
+        const unsigned form = (unsigned)(((c->s[0] < 0 ? -c->s[0] : c->s[0]) / 4) % 8);
+        const unsigned sel = (unsigned)((c->s[1] < 0 ? -c->s[1] : c->s[1]) % (6 * N_LITERALS));
+        if (op == OP_LITERAL) do_literal<V>(sel, &a, &r); else if (op == OP_USAGE) do_usage<V>(form, &a, &b, &cc, &r); else do_seq<V>(op, &a, &b, &cc, &r);
         rd<V>(r, got);
         after = FpEnv::take();
         for (unsigned i = 0; i < W; ++i) {
+            if (op == OP_LITERAL) {
+                const uint64_t L = literal_bits<T>(sel / 6);
+                switch (sel % 6) {
+                case 0: case 3: exp[i] = Ref<T>::bin(R_DIV, al[i], L); break; case 1: exp[i] = Ref<T>::bin(R_MUL, al[i], L); break; case 2: exp[i] = Ref<T>::bin(R_DIV, L, al[i]); break;
+                case 4: exp[i] = Ref<T>::bin(R_ADD, al[i], L); break; default: exp[i] = Ref<T>::bin(R_SUB, L, al[i]); break;
+                }
+                fused[i] = exp[i];
+                continue;
+            }
             if (op == OP_USAGE) {
                 switch (form) {
                 case 0: exp[i] = Ref<T>::bin(R_ADD, al[i], al[i]); break; case 1: exp[i] = Ref<T>::bin(R_SUB, al[i], al[i]); break;
                 case 2: exp[i] = Ref<T>::bin(R_MUL, al[i], al[i]); break; case 3: exp[i] = Ref<T>::bin(R_DIV, al[i], al[i]); break;
                 case 4: exp[i] = Ref<T>::bin(R_ADD, Ref<T>::bin(R_MUL, al[i], bl[i]), cl[i]); break;
-                default: exp[i] = Ref<T>::bin(R_DIV, Ref<T>::bin(R_ADD, al[i], bl[i]), cl[i]); break;
+                case 5: exp[i] = Ref<T>::bin(R_DIV, Ref<T>::bin(R_ADD, al[i], bl[i]), cl[i]); break;
+                case 6: exp[i] = Ref<T>::bin(R_ADD, Ref<T>::bin(R_ADD, al[i], elem<T>::to_bits(T(1))), elem<T>::to_bits(T(1))); break;
+                default: exp[i] = Ref<T>::bin(R_ADD, Ref<T>::bin(R_SUB, al[i], elem<T>::to_bits(T(1))), bl[i]); break;
                 }
                 fused[i] = exp[i];
                 continue;
@@ -104,7 +139,7 @@ template<class V> static void run_seq(const VpCase* c, VpOutcome* o, int mode, c
     }
     if (nt) o->nontrivial = 1; else o->classes |= 1u << CL_ORDINARY;
     if (!before.same(after)) { fail(o, -1, "fp_environment_changed", "%s changed the FP environment", OPS[op].name); return; }
-    char tag[96]; std::snprintf(tag, sizeof tag, "%s:mode%d", op == OP_USAGE ? "usage_form" : "two_roundings", mode);
+    char tag[96]; std::snprintf(tag, sizeof tag, "%s:mode%d", op == OP_LITERAL ? "literal_operand" : op == OP_USAGE ? "usage_form" : "two_roundings", mode);
     cmp_lanes(o, W, exp, got, nullptr, tag, OPS[op].name);
 }
 
@@ -200,6 +235,7 @@ extern "C" void vp_run(const VpCase* c, VpOutcome* o) {
     }
 }
 
+static uint64_t elem_one(unsigned B) { return B == 32 ? 0x3F800000ull : 0x3FF0000000000000ull; }
 extern "C" void vp_enum(int tier, uint64_t seed, uint32_t shard, uint32_t nshards, void (*emit)(const VpCase*, void*), void* ctx) {
     uint32_t nt; const VpTarget* T = vp_targets(&nt);
     uint64_t job = 0;
@@ -211,11 +247,26 @@ extern "C" void vp_enum(int tier, uint64_t seed, uint32_t shard, uint32_t nshard
         for (unsigned op = 0; op < OP_COUNT; ++op) {
             if ((job++ % nshards) != shard) continue;
             if (op == OP_SC_SQRT && W != 1) continue;
+            if (op == OP_LITERAL) {
+                const std::vector<uint64_t> S = vpl::flt_lattice_small(B);
+                for (unsigned sel = 0; sel < 6 * N_LITERALS; ++sel) for (int mode = 0; mode < 4; ++mode) {
+                    if (!tier && mode && mode != (int)((sel + seed) % 3) + 1) continue;
+                    VpCase c; std::memset(&c, 0, sizeof c); c.target = t; c.op = op; c.s[0] = mode; c.s[1] = sel;
+                    size_t fill = 0;
+                    for (size_t i = 0; i < S.size() + 64; ++i) {
+                        // the small lattice, then 64 values with full random-looking mantissas in [1, 2) and [2^-3, 2^-2) (where a reciprocal multiplication is one ulp off)
+                        uint64_t v = i < S.size() ? S[i] : ((elem_one(B) - ((i & 1) ? (uint64_t(3) << (B == 32 ? 23 : 52)) : 0)) | ((0x9E3779B97F4A7C15ull * (i + sel + 1)) >> (B == 32 ? 41 : 12)));
+                        c.v[0][(fill + sel) % W] = v;
+                        if (++fill == W || i + 1 == S.size() + 64) { emit(&c, ctx); fill = 0; }
+                    }
+                }
+                continue;
+            }
             if (op >= OP_MUL_ADD_SEQ) {
                 // products of boundary mantissas (inexact) plus an addend that cancels most of the product or sits half an ulp away: the triples where fusing shows
                 const std::vector<uint64_t> S = vpl::flt_lattice_small(B);
                 const size_t m = S.size();
-                for (int mode = 0; mode < (op == OP_USAGE ? 24 : 4); ++mode) {
+                for (int mode = 0; mode < (op == OP_USAGE ? 32 : 4); ++mode) {
                     VpCase c; std::memset(&c, 0, sizeof c); c.target = t; c.op = op; c.s[0] = mode;       // usage forms: mode + 4 * form
                     size_t fill = 0; uint64_t rot = seed + op + mode;
                     for (size_t i = 0; i < m; i += (tier ? 1 : 2)) for (size_t j = i % 3; j < m; j += (op == OP_USAGE ? 9 : 3)) for (size_t k = (i + j) % 5; k < m; k += (tier ? 5 : 11) * (op == OP_USAGE ? 3 : 1)) {
